@@ -202,7 +202,7 @@ class Environment:
             print('Failed event:')
             print(f'  time:     {next_event.time}')
             print(f'  asset_id: {next_event.asset_id}')
-            print(f'  action:   {next_event.action.__name__}')
+            print(f'  action:   {Environment._action_name(next_event.action)}')
             print(f'  event_type: {next_event.event_type}')
             print(f'  message: {next_event.message}')
             print(f'  status: {next_event.status}')
@@ -246,10 +246,17 @@ class Environment:
     def _terminate(self):
         self._terminated = True
 
+    @staticmethod
+    def _action_name(action):
+        # Actions can be callables without a __name__, e.g.
+        # functools.partial objects used by Maintainer.
+        action = getattr(action, 'func', action)
+        return getattr(action, '__name__', repr(action))
+
     def _trace_event(self, event):
         self._event_trace[self._event_index] = {'time': self.now,
                                                 'asset_id': event.asset_id,
-                                                'action': event.action.__name__,
+                                                'action': Environment._action_name(event.action),
                                                 'message': event.message,
                                                 'event_type': event.event_type,
                                                 'status': event.status}
